@@ -37,6 +37,10 @@ theorem fcacheGetMmap_runs (cfg : Cfg) (fidx pos : Nat) (orc : List Ext) (L : Li
 theorem fcacheGetRead_runs (cfg : Cfg) (fidx pos : Nat) (orc : List Ext) (L : List Res) :
     Runs (fcacheGetRead cfg fidx pos orc).evs L (gainFce (fcacheGetRead cfg fidx pos orc).res ++ L) := by
   unfold fcacheGetRead
+  simp only
+  split
+  · simp only [gainFce, List.nil_append]
+    exact Runs.nil L
   split <;> simp only [gainFce, stuckOut, pinOf, List.nil_append, List.cons_append]
   · exact Runs.neutral (by simp [Neutral]) L
   · exact Runs.acq _ _ L
